@@ -323,6 +323,39 @@ func emitDavLocal(o *Out, r *RNG) {
 		}
 		return sx("fi", hx(fi.Path), "0", fmt.Sprint(fi.Size), sxTimeZ(fi.ModTime), "-", "-")
 	}
+	// Create through the client, over new and over existing (longer and shorter) files: stored byte for byte
+	for _, e := range ents {
+		if e.dir {
+			continue
+		}
+		for _, content := range []string{"", "v2", e.data + " and more", strings.Repeat("z", 70000)} {
+			target := e.p
+			if content == "v2" && r.Bool() {
+				target = e.p + ".new"
+			}
+			o.Emit("dav.open", hx(content), guard(func() string {
+				w, err := c.Create(ctx, target)
+				if err != nil {
+					return errStr(err)
+				}
+				if _, err := w.Write([]byte(content)); err != nil {
+					return errStr(err)
+				}
+				if err := w.Close(); err != nil {
+					return errStr(err)
+				}
+				b, err := os.ReadFile(path.Join(root, target))
+				if err != nil {
+					return errStr(err)
+				}
+				return hx(string(b))
+			}))
+		}
+		// restore the content the listing below expects
+		os.WriteFile(path.Join(root, e.p), []byte(e.data), 0644)
+		os.Remove(path.Join(root, e.p+".new"))
+		os.Chtimes(path.Join(root, e.p), e.mtime, e.mtime)
+	}
 	for _, e := range ents {
 		if !e.dir {
 			o.Emit("dav.open", hx(e.data), guard(func() string {
